@@ -22,7 +22,7 @@ package dagaz
 //@   property C20
 //@   requires s != nil && p != nil && s.moduleStates != nil
 //@   requires "dagaz" in s.moduleStates ==> dyntype(s.moduleStates["dagaz"], *State) && s.moduleStates["dagaz"].(*State) != nil && s.moduleStates["dagaz"].(*State).SpatialPartition != nil
-//@   modifies {C03} m.currentSession, m.currentParticipant, m.state, contents(s.moduleStates)
+//@   modifies {C03} m.currentSession, m.currentParticipant, m.state, contents(s.moduleStates), all elem:[][]*modules/dagaz.Quad*
 //@   allocates
 //@   ensures m.currentSession == s && m.currentParticipant == p && m.state != nil && m.state.SpatialPartition != nil
 //@   ensures {C20,C03} "dagaz" in s.moduleStates && s.moduleStates["dagaz"].(*State) == m.state
